@@ -224,10 +224,21 @@ func (w *world) paramChange() (module string, changes []byte, tag string) {
 		var ch schedulerAPI.ConsensusParameterChanges
 		switch r.Intn(3) {
 		case 0:
-			// (MinValidators above max(MaxValidators, 1) makes every election fail -- the parameter
-			// change is not validated against that: probe script minmaxvalidators)
-			v := []int{-1, 0, 1}[r.Intn(3)]
+			// free draws incl. non-positive values and min above max (refused at submission since
+			// 2b1f48e); accepted minima stay <= 2, the number of validators the main stream keeps electable
+			v := []int{-1, 0, 1, 2, 2}[r.Intn(5)]
+			if v == 2 && w.k.Validators < 2 {
+				v = 1
+			}
 			ch.MinValidators = &v
+			if r.Chance(40) {
+				m := []int{-1, 0, 1, 2, 3, 100}[r.Intn(6)]
+				ch.MaxValidators = &m
+			}
+			if r.Chance(20) { // a minimum far above the maximum
+				v, m := []int{5, 100}[r.Intn(2)], []int{1, 2, 3}[r.Intn(3)]
+				ch.MinValidators, ch.MaxValidators = &v, &m
+			}
 		case 1:
 			v := []int{-1, 0, 1, 2, 3, 100}[r.Intn(6)]
 			ch.MaxValidators = &v
